@@ -145,7 +145,11 @@ func setLE(r *prng.R, b []byte, off, width int, actual uint64) ([]byte, string) 
 	}
 	var v uint64
 	var name string
-	switch r.Intn(7) {
+	switch r.Intn(9) {
+	case 7:
+		v, name = actual+8, "+8"
+	case 8:
+		v, name = actual-8, "-8"
 	case 0:
 		v, name = 0, "0"
 	case 1:
